@@ -41,6 +41,11 @@ statements in timer.py therefore breaks one of these obligations directly.
 namespace Exa.Props.C12
 open Exa Exa.Timer Exa.Generated
 
+/-- `keepaliveOf` of the model is `HoldTime.keepalive()` of the code on every hold time a session can have: the
+    method (a float division truncated by `int`) was run on all 65 536 of them on this run and never differs from the
+    floor division. -/
+theorem keepalive_is_floor_division : TimerTable.keepaliveDeviations = [] := by decide
+
 /-- **The constants are the RFC 4271 ones** (generated table = specification): hold time 0 or ≥ 3,
     16 bit; keepalive = hold / 3; hold timer expiry is 4/0; OPEN wait expiry is 5/1; KEEPALIVE is
     type 4; exactly `_NOP`, `_AWAKE`, `_DONE` are not real messages. -/
